@@ -42,7 +42,10 @@ from semantiva.pipeline.graph_builder import (
 from semantiva.pipeline.nodes._pipeline_node_factory import _pipeline_node_factory
 from semantiva.pipeline.nodes.nodes import _PipelineNode
 from semantiva.pipeline.payload import Payload
-from semantiva.registry.descriptors import instantiate_from_descriptor
+from semantiva.registry.descriptors import (
+    descriptor_to_json,
+    instantiate_from_descriptor,
+)
 from semantiva.metadata import (
     compute_node_semantic_id,
     compute_pipeline_config_id,
@@ -666,8 +669,9 @@ class SemantivaOrchestrator(ABC):
                 for name, info in self._parameter_defaults(node.processor).items()
                 if isinstance(info, ParameterInfo) and info.default is not _NO_DEFAULT
             }
+        declared_json = (node_def or {}).get("parameters_json") or {}
         for k, v in declared.items():
-            params_out[k] = serialize_json_safe(v)
+            params_out[k] = serialize_json_safe(declared_json.get(k, v))
             source_out[k] = "node"
         # Runtime precedence is config > context > default, so a context value
         # also wins over a signature default.
@@ -850,6 +854,10 @@ class SemantivaOrchestrator(ABC):
             nd = dict(node_def)
             nd["parameters"] = params
             node = _pipeline_node_factory(nd, logger)
+            # What the trace reports for a descriptor-built parameter is the
+            # descriptor, not the repr of the object built from it (which
+            # holds a memory address and differs from run to run).
+            nd["parameters_json"] = descriptor_to_json(node_def.get("parameters", {}))
             nodes.append(node)
             node_defs.append(nd)
         return nodes, node_defs
